@@ -65,7 +65,7 @@ class Vec:
 
 
 class Ptr:
-    __slots__ = ('base', 'off', 'elem')
+    __slots__ = ('base', 'off', 'elem', 'subslice_offs')
 
     def __init__(self, base, off=None, elem=None):
         self.base = base
